@@ -340,6 +340,7 @@ package stree
 //@   loop 1: invariant [C03] prefix: samePrefix(c, old(len(c.path)))
 //@   loop 1: invariant [C03] leftward: forall a int, b int :: {c.path[a], c.path[b]} old(len(c.path)) <= b && b == a + 1 && b < len(c.path) ==> c.path[b] == c.path[a].left
 //@   loop 1: invariant [C03] ord: ordPath(c.path, cmp)
+//@   at after "min = min.left": assert [C03] min in c.path[0].desc
 //@   loop 1: invariant [C03] least: min in old(cur(c)).desc && rank(cmp, min.X) in old(cur(c)).keys && forall k int :: {k in old(cur(c)).keys} k in old(cur(c)).keys ==> k in min.keys || k > rank(cmp, min.X)
 //@
 //@ func (*Cursor).Max
@@ -356,6 +357,7 @@ package stree
 //@   loop 1: invariant [C03] prefix: samePrefix(c, old(len(c.path)))
 //@   loop 1: invariant [C03] rightward: forall a int, b int :: {c.path[a], c.path[b]} old(len(c.path)) <= b && b == a + 1 && b < len(c.path) ==> c.path[b] == c.path[a].right
 //@   loop 1: invariant [C03] ord: ordPath(c.path, cmp)
+//@   at after "max = max.right": assert [C03] max in c.path[0].desc
 //@   loop 1: invariant [C03] greatest: max in old(cur(c)).desc && rank(cmp, max.X) in old(cur(c)).keys && forall k int :: {k in old(cur(c)).keys} k in old(cur(c)).keys ==> k in max.keys || k < rank(cmp, max.X)
 //@
 //@ func (*Cursor).findNext
